@@ -8,6 +8,7 @@ import (
 
 	"github.com/robfig/soy"
 	"github.com/robfig/soy/soyhtml"
+	"github.com/robfig/soy/soymsg"
 
 	"github.com/robfig/soy/errortypes"
 	"github.com/robfig/soy/parse"
@@ -323,6 +324,9 @@ func init() {
 			if k%11 == 7 {
 				return c19Recursive(ctx)
 			}
+			if k%11 == 9 {
+				return c19MsgTwins(ctx)
+			}
 			depth := k % 4
 			wrap := (k / 4) % 6
 			sameFile := (k/24)%2 == 0
@@ -471,6 +475,62 @@ func c19Recursive(ctx *fw.Ctx) fw.Result {
 	if key, why := checkPos(rerr, name, func(l int) bool { return ok[l] }, fmt.Sprintf("line %d (the {call} of the rendered instance) or %d (its enclosing {if})", lCall, lIf), 0); key != "" {
 		return fw.Result{Verdict: fw.Violated, Key: "render:" + key + ":recursive-entry", Case: files,
 			Msg: fmt.Sprintf("entry template calling itself %d deep, failing at the bottom: %s", levels, why)}
+	}
+	return fw.Result{Verdict: fw.Held}
+}
+
+// c19MsgTwins: a message prints the same failing expression on two of its lines (one placeholder, two occurrences)
+// and is rendered with and without a catalogue that holds its own text. The first occurrence is the one that fails.
+func c19MsgTwins(ctx *fw.Ctx) fw.Result {
+	r := ctx.Rng
+	bad := []string{"{$ij.nope.x}", "{$u.v}", "{$ij.a|truncate:'x'}", "{1 < 'a'}"}[r.Intn(4)]
+	var b strings.Builder
+	line := 1
+	wr := func(s string) int {
+		at := line
+		b.WriteString(s + "\n")
+		line += 1 + strings.Count(s, "\n")
+		return at
+	}
+	wr("{namespace na}")
+	for j := 0; j < r.Intn(8); j++ {
+		wr("// padding")
+	}
+	wr("/** @param? u */")
+	wr("{template .t0}")
+	wr("line one{isNonnull($u)}")
+	lMsg := wr("{msg desc=\"d\"}")
+	wr("  words {$ij.a} and")
+	for j := 0; j < r.Intn(3); j++ {
+		wr("  more words")
+	}
+	lFirst := wr("  " + bad + " first,")
+	for j := 0; j < 1+r.Intn(3); j++ {
+		wr("  words between <b>them</b>")
+	}
+	wr("  " + bad + " second")
+	wr("{/msg}")
+	wr("{/template}")
+	name := []string{"twins.soy", "./views/twins.soy", ""}[r.Intn(3)]
+	files := []srcFile{{name, b.String()}}
+	ctx.Cell("render-msg-twins")
+	ctx.Eval(fmt.Sprintf("twins:%v", files))
+	reg, err := compileRegistry(files, nil)
+	if err != nil {
+		return fw.Result{Verdict: fw.Inconclusive, Key: "render-case-does-not-compile", Msg: errText(err), Case: files}
+	}
+	ijv := ref.MapOf("a", ref.Str("abcdef"))
+	ok := map[int]bool{lMsg: true, lFirst: true}
+	for pass, msgs := range []soymsg.Bundle{nil, identityCatalogue(reg)} {
+		_, rerr := render(soyhtml.NewTofu(reg), "na.t0", map[string]ref.Value{}, &ijv, msgs)
+		if rerr == nil {
+			return fw.Result{Verdict: fw.Inconclusive, Key: "render-case-did-not-fail", Case: files}
+		}
+		ctx.Obs("render_errors_judged", 1)
+		if key, why := checkPos(rerr, name, func(l int) bool { return ok[l] }, fmt.Sprintf("line %d (the first failing print) or %d (the {msg} around it)", lFirst, lMsg), 0); key != "" {
+			return fw.Result{Verdict: fw.Violated, Key: "render:" + key + ":msg-twins", Case: files,
+				Msg: fmt.Sprintf("a message printing the same failing expression on two lines (catalogue: %v): %s", pass == 1, why)}
+		}
 	}
 	return fw.Result{Verdict: fw.Held}
 }
